@@ -557,7 +557,10 @@ TRUSTED = [
     "Coq 8.16.1 kernel (coqc); vm_compute only in the non-vacuity Examples",
     "extraction (ExtrOcamlBasic directives only) + ocaml/c05/driver.ml (parsing of the heap text, printing of the verdicts)",
     "vt/harness/c05_snap.py: the snapshot of the real object graph (identity-based traversal from the root, class codes, "
-    "tokenisation of visible words by str.split) - cross-checked on every snapshot against an independent Python reading",
+    "tokenisation of visible words by str.split) - cross-checked on every snapshot against an independent Python reading; a new "
+    "snapshot is taken after a pass only if the hash of (identity, parent, class, number of children, caption, target) over the "
+    "reachable nodes changed (c05_impl.quick_fingerprint)",
+    "the pass under test always gets 1000 interpreter frames (CPython's default recursion limit) below the harness (c05_impl.limited)",
     "coq/C05/Heap.v as a faithful restatement of advtree.py:94-150 (tie: differential run on real AdvancedNode objects)",
     "CPython semantics of list slicing/insert/append, copy.deepcopy on a self-contained object graph",
 ]
